@@ -5,7 +5,7 @@ import ast
 from typing import List, Set
 
 from ..callgraph import callgraph
-from ..cfg import cfg_of, edge_dominates, edges_dominate, node_calls, reach
+from ..cfg import cfg_of, dominating_edges, edge_dominates, edges_dominate, node_calls, reach
 from ..defuse import def_value, defs_of, derives_from, reaching_defs, resolve_alias
 from ..model import Repo, ancestors, body_nodes, norm, parent, short
 from .C18 import nonoverlap
@@ -33,6 +33,7 @@ def check(repo: Repo, rep, tier):
     wholefile_gate(repo, rep)
     import_only(repo, rep)
     import_scope(repo, rep)
+    import_position(repo, rep)
     file_identity(repo, rep)
     io_newline(repo, rep)
     io_encoding(repo, rep)
@@ -213,6 +214,21 @@ def char_units(repo: Repo, rep):
                                 continue
                             bad += 1
                             rep.violation("R-CHAR-UNITS", f, c, f"{f.qualname} builds a source position from the ast byte offset `{norm(x)}`: with non-ASCII text before the call on the same line the edit lands at the wrong column and corrupts the file", construct=norm(x))
+    # a position built from a token takes line and column from the *same* end of the token (a triple-quoted string starts and ends on
+    # different lines: `start[0]` with `end[1]` is a point inside some other line)
+    for f in repo.pkg_funcs():
+        if f.module.rel.startswith("testing/"):
+            continue
+        for c in body_nodes(f.node):
+            if isinstance(c, ast.Call) and norm(c.func) == "SourcePosition":
+                vals = list(c.args) + [k.value for k in c.keywords]
+                ends = []
+                for v_ in vals:
+                    if isinstance(v_, ast.Subscript) and isinstance(v_.value, ast.Attribute) and v_.value.attr in ("start", "end") and isinstance(v_.slice, ast.Constant):
+                        ends.append((norm(v_.value.value), v_.value.attr))
+                if len(ends) == 2 and ends[0][0] == ends[1][0] and ends[0][1] != ends[1][1]:
+                    bad += 1
+                    rep.violation("R-CHAR-UNITS", f, c, f"`{short(c, 70)}` in {f.qualname} mixes the two ends of a token: for a token that spans several lines (a triple-quoted string) the position lies on the wrong line - an edit next to such an element removes or damages it", construct=f"{f.qualname}:mixed-endpoints")
     # the other direction: a character column must not be *converted* as if it were a byte offset
     for f in repo.pkg_funcs():
         if f.module.rel not in POSITION_MODULES:
@@ -475,6 +491,82 @@ def import_scope(repo: Repo, rep):
 
 
 PATH_NORMALISERS = ("realpath", "abspath", "normpath", "normcase", "resolve", "absolute", "expanduser", "relative_to", "relpath", "as_posix")
+
+
+def import_position(repo: Repo, rep):
+    rep.rule(
+        "R-IMPORT-POSITION",
+        "(1) the scan that decides whether a name is already imported looks at *every* module-level statement: its loop over `<tree>.body` is left only "
+        "by the `return True` of a match (an import behind `pytest.importorskip(..)`, a docstring or an assignment is still an import; stopping at the first "
+        "other statement adds the import a second time).  (2) a new import is inserted at the end of the *physical line* of the last leading import: "
+        "the walk starts at `<last import>.last_token` (not its first token: a parenthesised import spans lines) and advances with next_token() in a "
+        "loop while the next token ends on the same line (`import sys; sys.path.insert(..)` has more tokens on that line) - otherwise the text is "
+        "inserted inside the import or inside the line and the file no longer parses (this edit is applied after the ast.parse check of the session)",
+    )
+    m = repo.module("_find_external.py")
+    n = 0
+    for f in m.funcs.values():
+        cfg = None
+        for lp in [x for x in body_nodes(f.node) if isinstance(x, ast.For) and isinstance(x.target, ast.Name)]:
+            v = lp.target.id
+            tests = [c for c in ast.walk(lp) if isinstance(c, ast.Call) and norm(c.func) == "isinstance" and len(c.args) == 2 and norm(c.args[0]) == v and "ImportFrom" in norm(c.args[1])]
+            rets_true = [r for r in ast.walk(lp) if isinstance(r, ast.Return) and isinstance(r.value, ast.Constant) and r.value.value is True]
+            if not tests or not rets_true:
+                continue  # the other loop over the leading imports (ensure_import) stops at the first non-import on purpose
+            n += 1
+            leaves = [x for x in ast.walk(lp) if isinstance(x, (ast.Break,)) or (isinstance(x, ast.Return) and not (isinstance(x.value, ast.Constant) and x.value.value is True))]
+            if leaves:
+                rep.violation(
+                    "R-IMPORT-POSITION",
+                    f,
+                    leaves[0],
+                    f"{f.qualname} leaves its scan of the module-level statements early (`{short(leaves[0], 30)}`): an import that stands behind another statement is not seen, "
+                    "the import is added a second time - a line of the test file outside any snapshot() changes although nothing there was approved",
+                    construct=f"{f.qualname}:scan-left-early",
+                )
+            else:
+                rep.ok("R-IMPORT-POSITION", f, lp, "every module-level statement is looked at")
+    rep.floor("R-IMPORT-POSITION", "import scans that answer True", n, 1)
+    f = repo.func("_find_external.py::ensure_import")
+    cfg = cfg_of(f)
+    ends = [(n_, c) for n_ in cfg.live for c in node_calls(n_) if norm(c.func) == "end_of" and c.args and isinstance(c.args[0], ast.Name)]
+    rep.floor("R-IMPORT-POSITION", "end_of(<token>) positions in ensure_import", len(ends), 1)
+    for n_, c in ends:
+        tv = c.args[0].id
+        ds = reaching_defs(cfg, n_, tv)
+        starts = [d for d in ds if def_value(d, tv) is not None and isinstance(def_value(d, tv), ast.Attribute)]
+        steps = [d for d in ds if d not in starts]
+        ok_start = bool(starts) and all(def_value(d, tv).attr == "last_token" for d in starts)
+        # the advancing definitions: `tok = nxt` with nxt = <x>.next_token(tok), inside a loop, under a same-line comparison
+        ok_loop = False
+        for d in steps:
+            dv = def_value(d, tv)
+            src = resolve_alias(cfg, d, dv) if isinstance(dv, ast.Name) else dv
+            in_loop = any(isinstance(a_, (ast.While, ast.For)) for a_ in ancestors(d.ast)) if d.ast is not None else False
+            same_line = any(isinstance(cn.ast, ast.Compare) and ".end[0]" in norm(cn.ast) or (isinstance(cn.ast, ast.Compare) and ".start[0]" in norm(cn.ast)) for cn, lab in dominating_edges(cfg, d) if cn.kind == "cond")
+            if isinstance(src, ast.Call) and norm(src.func).endswith("next_token") and in_loop and same_line:
+                ok_loop = True
+        if not ok_start:
+            bad = [d for d in starts if def_value(d, tv).attr != "last_token"]
+            rep.violation(
+                "R-IMPORT-POSITION",
+                f,
+                (bad[0].ast if bad else c),
+                f"the walk to the end of the import's line starts at `{short(def_value(bad[0], tv), 40) if bad else '?'}`, not at the last token of the last leading import: for an import that spans several lines "
+                "(parentheses, backslash) the new import is inserted inside it and the file no longer parses",
+                construct="ensure_import:start-token",
+            )
+        elif not ok_loop:
+            rep.violation(
+                "R-IMPORT-POSITION",
+                f,
+                c,
+                "the end of the import's physical line is not searched by a loop over next_token() that compares line numbers: with more tokens on that line (`import sys; sys.path.insert(0, ..)`, a comment) "
+                "the new import is inserted in the middle of the line and the rest of the line becomes an indented fragment",
+                construct="ensure_import:line-walk",
+            )
+        else:
+            rep.ok("R-IMPORT-POSITION", f, c, "inserted behind the physical line of the last leading import")
 
 
 def file_identity(repo: Repo, rep):
